@@ -110,7 +110,7 @@ def generate(r, in_fn, allow_exempt=False):
     for _ in range(r.randint(6, 30)):
         act = r.choice(["new", "alias", "hold", "key", "box", "mut", "mut", "mut", "mut", "eq", "eq", "hhas", "mhas", "len",
                         "boxeq", "capture", "tuple", "observer", "fobs", "fobs", "fmut", "viaholder", "viabox", "growcall",
-                        "growcall", "bigkey", "itermut", "itermut"])
+                        "growcall", "bigkey", "itermut", "itermut", "table", "table"])
         names = list(variables)
         a = r.choice(names)
         o = variables[a]
@@ -144,6 +144,20 @@ def generate(r, in_fn, allow_exempt=False):
             text = mutate_list(a, o)
             if text:
                 body.append(text)
+        elif act == "table" and in_fn and len(names) >= 2:
+            # a list collected by a native from an iterator without a size hint has outgrown its first block inside the
+            # native (five or more elements): it is born forwarded, and has/index on a moved receiver rescan the stack, so
+            # they find locals by identity even when those are grown lists themselves
+            members = [r.choice(names) for _ in range(r.randint(5, 7))]
+            tname = "t%d" % len(body)
+            body.append("let %s = [%s].iter().filter(|x| true).list();" % (tname, ", ".join(members)))
+            probe = r.choice(names)
+            ids = [variables[m] for m in members]
+            target = variables[probe]
+            body.append("print(%s.has(%s), %s.index(%s), %s.len());" % (tname, probe, tname, probe, tname))
+            position = next((i for i, candidate in enumerate(ids) if candidate is target), None)
+            expect.append("%s %s %d" % ("true" if position is not None else "false", position if position is not None else "nil", len(members)))
+            stats["observations"] += 1
         elif act == "bigkey":
             # any value works as a key, also in a map that has grown to a few hundred entries: equal numbers (0 and -0,
             # 2 and 2.0) find the same entry, objects find theirs
